@@ -9,6 +9,9 @@ pub mod ir;
 pub mod opt;
 pub mod runtime;
 
+#[cfg(hpbf_verif)]
+pub mod verif;
+
 use std::{fmt::Debug, hash::Hash};
 
 /// Kind of error that might be encountered during the parsing of a Brainfuck
